@@ -10,6 +10,8 @@ import (
 	"time"
 
 	"gircverif/drive"
+
+	"github.com/lrstanley/girc"
 )
 
 func heapJoined(t *testing.T) *drive.Session {
@@ -171,5 +173,47 @@ func TestC13_LookupOddArgumentsIsolated(t *testing.T) {
 		if got := s.C.LookupChannel("#chan"); got.Topic != "" || got.UserList[0] != "alice" {
 			t.Fatalf("[%s] writing the returned channel changed the tracked one: %+v", arg, got)
 		}
+	}
+}
+
+// Guard (passes on the current tree; seeded/C13-6): the result slices of Users() / Channels() /
+// UserList() / ChannelList() are new arrays on every call: a later call or event does not
+// change a listing handed out earlier, and slot writes in one do not show in another.
+func TestC13_ListingsAreFresh(t *testing.T) {
+	s := heapJoined(t)
+	defer s.Stop()
+	nicks := func(l []*girc.User) (out []string) {
+		for _, u := range l {
+			if u == nil {
+				out = append(out, "<nil>")
+			} else {
+				out = append(out, u.Nick)
+			}
+		}
+		return out
+	}
+	first := s.C.Users()
+	before := nicks(first)
+	s.Feed(":alice!a@h QUIT :bye")
+	s.Feed(":aaron!x@h JOIN #chan")
+	second := s.C.Users()
+	if got := nicks(first); !reflect.DeepEqual(got, before) {
+		t.Fatalf("a later Users() call / later events changed a listing handed out earlier: %v -> %v", before, got)
+	}
+	want := nicks(second)
+	third := s.C.Users()
+	third[0], third[1] = nil, third[0]
+	if got := nicks(second); !reflect.DeepEqual(got, want) {
+		t.Fatalf("slot writes in one listing changed another: %v -> %v", want, got)
+	}
+	c1, c2 := s.C.Channels(), s.C.Channels()
+	c1[0] = nil
+	if c2[0] == nil {
+		t.Fatal("two Channels() results share their backing array")
+	}
+	l1, l2 := s.C.UserList(), s.C.UserList()
+	l1[0] = "overwritten"
+	if l2[0] == "overwritten" || s.C.UserList()[0] == "overwritten" {
+		t.Fatal("UserList() results share their backing array")
 	}
 }
